@@ -24,6 +24,7 @@ def main(tier):
     r = cx.repo
     chk.run("R-CASEDEDUP", B.casededup, r, floor=3)
     chk.run("R-ENUMCASE", B.enumcase, r, floor=2)
+    chk.run("R-ENUMINFER", V.enuminfer, r, floor=4)
     chk.run("R-EXACTNAME", B.exactname, r, floor=2)
     chk.run("R-TEXTNAME", B.textname, r, floor=2)
     chk.run("R-RENDERINT", B.renderint, r, floor=100)
